@@ -165,6 +165,58 @@ def units_explain(case, obs, pred):
 EXPLAIN = {("C16", "units"): units_explain}
 
 
+def c16_sweep_engine(prop, tier, seed, work, known):
+    """Thorough tier: PROVE format-then-parse = identity on the built-in unit sets (as dumped from the
+    live SDK into Generated/Tables.v) for every integer in [0, 200000] - the range the property's
+    quantifier names.  A finite domain decided inside the kernel: 16 shard lemmas
+    `forallb ... = true` by vm_compute compiled in parallel, lifted by Proofs/UnitsSweep.sweep_all_sound
+    and glued by lia into one theorem, with Print Assumptions.  A shard that does not check is a broken
+    proof obligation; the failing integers are then searched for by the correspondence family."""
+    import os
+    import subprocess
+    import check
+    if tier != "thorough":
+        return {"name": "builtin-sweep-proof", "stats": {"skipped": "thorough tier only; quick proves [0,2000] in Proofs/UnitsBuiltin.v"}}
+    top, shards = 200000, 16
+    size = (top + 1 + shards - 1) // shards
+    d = os.path.join(work, "sweep")
+    os.makedirs(d, exist_ok=True)
+    hdr = ("From Coq Require Import Lia ZArith List.\n"
+           "From Verif Require Import Base.Prelude Base.Str Schema.Regex Schema.Units Generated.Tables Proofs.UnitsSweep.\n"
+           "Import ListNotations.\nOpen Scope Z_scope.\n")
+    for k in range(shards):
+        with open(os.path.join(d, "Shard%d.v" % k), "w") as f:
+            f.write(hdr + "Lemma shard_%d : forallb (fun u => sweep u %d (Z.to_nat %d)) builtin_units = true.\n"
+                          "Proof. vm_compute. reflexivity. Qed.\n" % (k, k * size, size))
+    with open(os.path.join(d, "SweepAll.v"), "w") as f:
+        f.write(hdr + "".join("From VerifSweep Require Import Shard%d.\n" % k for k in range(shards)))
+        f.write("Theorem C16_roundtrip_builtin_%d : forall u n, In u builtin_units -> 0 <= n <= %d ->\n"
+                "  parse_units_int u (format_short_int u n) = Some n /\\ parse_units_int u (format_long_int u n) = Some n.\n"
+                "Proof.\n  intros u n Hu Hn.\n" % (top, top))
+        for k in range(shards):
+            f.write("  destruct (Z_lt_ge_dec n %d) as [L%d|G%d].\n"
+                    "  { apply (sweep_all_sound builtin_units %d (Z.to_nat %d) shard_%d u n Hu). rewrite Z2Nat.id; lia. }\n"
+                    % ((k + 1) * size, k, k, k * size, size, k))
+        f.write("  exfalso; lia.\nQed.\nPrint Assumptions C16_roundtrip_builtin_%d.\n" % top)
+    base = ["coqc", "-Q", check.COQ, "Verif", "-Q", d, "VerifSweep", "-w", "-notation-overridden"]
+    procs = [subprocess.Popen(["timeout", "3000"] + base + ["Shard%d.v" % k], cwd=d, stdout=subprocess.PIPE,
+                              stderr=subprocess.STDOUT, text=True) for k in range(shards)]
+    outs = [p.communicate()[0] for p in procs]
+    bad = [k for k, p in enumerate(procs) if p.returncode != 0]
+    if bad:
+        k = bad[0]
+        raise check.ProofBroken("c16-sweep", "shard %d ([%d, %d)) of the built-in round-trip sweep does not check:\n%s"
+                                % (k, k * size, (k + 1) * size, outs[k][-1500:]))
+    p = check.run(["timeout", "3000"] + base + ["SweepAll.v"], cwd=d)
+    if p.returncode != 0 or "Closed under the global context" not in p.stdout:
+        raise check.ProofBroken("c16-sweep", "the glued theorem C16_roundtrip_builtin_%d does not check or is not axiom-free:\n%s"
+                                % (top, p.stdout[-1500:]))
+    return {"name": "builtin-sweep-proof", "evaluations": 0, "distinct_nontrivial": 0, "obligations": shards + 1,
+            "stats": {"theorem": "C16_roundtrip_builtin_%d" % top, "range": [0, top], "shards": shards,
+                      "qed": shards + 1, "assumptions": "Closed under the global context",
+                      "unit_sets": "builtin_units from Generated/Tables.v (re-dumped from the SDK on this run)"}}
+
+
 def match_known(known, fam, case, obs, pred):
     for k in known:
         m = k.get("match", {})
@@ -182,6 +234,7 @@ PROPS = {
     "C16": {
         "theory": "Properties/C16.v",
         "families": ["units"],
+        "engines": [c16_sweep_engine],
         "rule": "units: the five built-in unit sets (from the live SDK) and generated definitions (prefix-overlapping names, "
                 "regexp metacharacters) x {integer sweep 0..N, powers of ten, multiplier boundaries +-1, random 63-bit values} "
                 "formatted short+long and re-parsed, plus generated well-formed and near-miss strings parsed; distinct by case "
